@@ -10,7 +10,8 @@ EXPLANATION = ('The real SingleListGrader (check_response, process_grade_list, c
                'table-driven subgrader whose per-(item, submitted item) credits and the answer-level credit are z3 reals. On every path '
                'z3 decides grade = a * max(0, (best - surplus)/n_expect) with best = positional sum (ordered) or the maximum over ALL '
                'injective assignments (unordered), the partial_credit=False cut, when the answer-level message is shown, invariance under '
-               'permuting the submission, and MissingInput for wrong counts / blank items when configured.')
+               'permuting the submission, and MissingInput for wrong counts / blank items when configured.'
+               " Blank submitted items (missing_error off) are items like any other: the subgrader's credit for them enters the formula.")
 ASSUMPTIONS = ['item credits arbitrary reals in [0,1] ("full") or (0,1) ("interior"); answer credit a in [0,1]; item strings concrete tokens']
 BOUNDS = {'quick': 'expected 1-3 x submitted 1-4 items: <=2x2 full (unordered), 2x3/3x2/3x3 interior, ordered up to 3x4 full; delimiters "," ";" "--"; 2 alternative lists (2 items); '
                    'one level of nesting 2x2 with ordered inner lists; all length_error/missing_error flag combinations on concrete blank/short inputs',
